@@ -101,6 +101,7 @@ type dStats struct {
 	Lossy             int
 	Abrupt            int // readers that paused or left while packets were being written
 	ReqsDuringBurst   int // requests a playing reader got answered while packets were being written to it
+	PauseRefused      int // PAUSE requests the server's application refused
 }
 
 // RunDelivery is the C01 oracle.
@@ -468,6 +469,30 @@ func runDelivery(c DeliveryCase) (*dStats, error) {
 				r.playing = false
 				st.MidJoin = true
 			}
+		case "pause-refused":
+			// the application on the server does not let a peer pause (405): the peer's session goes on as it was, and so do
+			// its obligations - a recording client's later packets still reach the server, a reader still gets everything
+			var who *gortsplib.Client
+			name := "publisher"
+			if pub != nil && a.Marker {
+				who = pub
+			} else if r := readers[a.Reader%len(readers)]; r.c != nil && r.playing && !r.closed {
+				who, name = r.c, "reader"
+			}
+			if who == nil {
+				break
+			}
+			// (Pause() drops what its own queue still holds before it asks the server: everything written so far is let through first)
+			if err := flush(); err != nil {
+				return st, err
+			}
+			w.H.RefusePause.Store(true)
+			_, perr := who.Pause()
+			w.H.RefusePause.Store(false)
+			if perr == nil {
+				return st, fmt.Errorf("action %d: the server refused the %s's PAUSE with 405 and Pause() reported success", ai, name)
+			}
+			st.PauseRefused++
 		case "req-burst":
 			// a reader that sends requests while packets are being written to it: responses and frames share its connection.
 			// The only requests a playing client can be made to send are PAUSE and PLAY: it pauses and resumes at once, as
